@@ -19,7 +19,7 @@ from sim.core.seams import Seams, SimClock, TimeProxy, make_datetime_proxy
 PATTERNS = ['/a', '/<x>', '/b/', '/a/<y>', '/<p+>', '/c/<n:int>']
 PATHS = ['/a', '/b', '/b/', '/a/z', '/q', '/q/r/s', '/', '/c/7', '/c/x', '/a/', '//a']
 OUTCOMES = {'ok': '200', 'red': '302', 'r404': '404', 'x409': '409', 'nb403': '403', 'nbret404': '404',
-            'boom': "'ValueError'", 'boom2': "'KeyError'", 'ise': '500'}
+            'boom': "'ValueError'", 'boom2': "'KeyError'", 'ise': '500', 'x423': '423', 'r451': '451', 'x599': '599'}
 NONBREAKING = ('nb403', 'nbret404')
 
 
@@ -42,6 +42,15 @@ def make_ep(out):
             raise Forbidden(is_breaking=False)
         if out == 'nbret404':
             return NotFound(is_breaking=False)
+        if out == 'x423':
+            from clastic.errors import BadRequest
+            raise BadRequest(code=423)              # a stock class with a per-instance status code
+        if out == 'r451':
+            from clastic.errors import Forbidden as _F
+            return _F(code=451)
+        if out == 'x599':
+            from clastic.errors import HTTPException
+            raise HTTPException(code=599)
         if out == 'boom2':
             raise KeyError('k')
         if out == 'ise':
